@@ -293,8 +293,113 @@ def decodeBytes (d : Dec) : Option (Bytes × Dec) :=
             | none => none
             | some d' => some (rest.take h.val, d')
 
+
+/-- `DecodeRawBytes`: a copy of the next complete data item (`d.skip()` over data that
+    `prepareNext` has validated: the extent of the next well-formed item). -/
+def decodeRawBytes (d : Dec) : Option (Bytes × Dec) :=
+  match d.prepareNext with
+  | none => none
+  | some d =>
+    match wfNext d.data with
+    | none => none
+    | some rest =>
+      match d.advance rest with
+      | none => none
+      | some d' => some (d.data.take (d.data.length - rest.length), d')
+
 /-- `NumBytesDecoded` -/
 def numBytesDecoded (d : Dec) : Nat := d.consumed
+
+end Dec
+
+/-! ### `cbor.Unmarshal(data, &index)` with `var index uint64` (decode.go `decMode.Unmarshal`,
+    `decoder.parseToValue` for a destination of kind `reflect.Uint64`, default `DecMode`, no
+    registered tags), as called by `decodeTypeInfoRefIfNeeded` (typeinfo.go).  `none` = an error. -/
+
+/-- "Strip self-described CBOR tag number": leading tags 55799 -/
+def stripSelfDescribed : Nat → Bytes → Bytes
+  | 0, data => data
+  | fuel + 1, data =>
+    match wfHead data with
+    | some (h, rest) => if h.t = 6 ∧ h.val = 55799 then stripSelfDescribed fuel rest else data
+    | none => data
+
+/-- "Check validity of supported built-in tags": every tag number of the leading chain of tags
+    against the initial byte of what follows it (`validBuiltinTag`, common.go) -/
+def builtinTagsOK : Nat → Bytes → Bool
+  | 0, _ => true
+  | fuel + 1, data =>
+    match wfHead data with
+    | some (h, rest) =>
+      if h.t = 6 then
+        match rest with
+        | [] => false
+        | c :: _ =>
+          let t := c / 32 % 8
+          let ok : Bool :=
+            if h.val = 0 then decide (t = 3)
+            else if h.val = 1 then decide (t = 0 ∨ t = 1 ∨ (0xf9 ≤ c ∧ c ≤ 0xfb))
+            else if h.val = 2 ∨ h.val = 3 then decide (t = 2)
+            else true
+          ok && builtinTagsOK fuel rest
+      else true
+    | none => true
+
+/-- the chunks of an indefinite-length byte string up to the break code, concatenated -/
+def indefChunks : Nat → Bytes → Option Bytes
+  | 0, _ => none
+  | fuel + 1, data =>
+    match data with
+    | [] => none
+    | b :: _ =>
+      if b = 255 then some []
+      else
+        match wfHead data with
+        | none => none
+        | some (h, rest) =>
+          match indefChunks fuel (rest.drop h.val) with
+          | none => none
+          | some more => some (rest.take h.val ++ more)
+
+/-- `decoder.parseByteString`: the content of the byte string at the head of `data` -/
+def parseByteString (data : Bytes) : Option Bytes :=
+  match wfHead data with
+  | none => none
+  | some (h, rest) =>
+    if h.ai = 31 then indefChunks data.length rest else some (rest.take h.val)
+
+/-- `parseToValue` into a `uint64` -/
+def parseToUint64 : Nat → Bytes → Option Nat
+  | 0, _ => none
+  | fuel + 1, data =>
+    let data := stripSelfDescribed data.length data
+    if !builtinTagsOK data.length data then none
+    else
+      match wfHead data with
+      | none => none
+      | some (h, rest) =>
+        if h.t = 0 then some h.val                          -- fillPositiveInt
+        else if h.t = 7 then
+          if h.ai = 25 ∨ h.ai = 26 ∨ h.ai = 27 then none    -- fillFloat: UnmarshalTypeError
+          else if h.ai = 20 ∨ h.ai = 21 then none           -- fillBool: UnmarshalTypeError
+          else if h.ai = 22 ∨ h.ai = 23 then some 0         -- fillNil: no-op, the variable keeps its zero value
+          else some h.val                                   -- other simple values: fillPositiveInt
+        else if h.t = 6 then
+          if h.val = 2 then                                 -- unsigned bignum
+            match parseByteString rest with
+            | none => none
+            | some b => if beVal b < 2 ^ 64 then some (beVal b) else none
+          else if h.val = 3 then none                       -- negative bignum into an unsigned kind
+          else parseToUint64 fuel rest
+        else none                                           -- negative int, strings, arrays, maps
+
+/-- `cbor.Unmarshal(data, &index)`: exactly one well-formed item, then `parseToValue` -/
+def unmarshalUint64 (data : Bytes) : Option Nat :=
+  match wfNext data with
+  | some [] => parseToUint64 data.length data
+  | _ => none
+
+namespace Dec
 
 end Dec
 
